@@ -9,6 +9,7 @@ import (
 	"io/fs"
 	"io/ioutil"
 	"os"
+	"path/filepath"
 	"reflect"
 	"runtime"
 	"strings"
@@ -254,13 +255,42 @@ func unmarshalJsonFile(path string, i interface{}) (err error) {
 	return
 }
 
-func writeReader(path string, r io.Reader, perms fs.FileMode, compress bool) (err error) {
-	var out *os.File
-	var w io.WriteCloser
+// tmpName returns the name of the temporary file used to write path. It
+// starts with a dot so that it is never taken for an object file.
+func tmpName(path string) string {
+	return filepath.Join(filepath.Dir(path), fmt.Sprintf(".%s.tmp", filepath.Base(path)))
+}
 
+// writeFileAtomic writes data to a temporary file which then replaces path,
+// so that path always contains either its previous or its new content
+func writeFileAtomic(path string, data []byte, perms fs.FileMode) (err error) {
+	tmp := tmpName(path)
+	if err = ioutil.WriteFile(tmp, data, perms); err != nil {
+		os.Remove(tmp)
+		return
+	}
+	return os.Rename(tmp, path)
+}
+
+// writeReader writes r to a temporary file which then replaces path, so that
+// path always contains either its previous or its new content
+func writeReader(path string, r io.Reader, perms fs.FileMode, compress bool) (err error) {
 	if compress && !strings.HasSuffix(path, compressedExtension) {
 		path = fmt.Sprintf("%s%s", path, compressedExtension)
 	}
+
+	tmp := tmpName(path)
+	if err = writeReaderTo(tmp, r, perms, compress); err != nil {
+		os.Remove(tmp)
+		return
+	}
+
+	return os.Rename(tmp, path)
+}
+
+func writeReaderTo(path string, r io.Reader, perms fs.FileMode, compress bool) (err error) {
+	var out *os.File
+	var w io.WriteCloser
 
 	if out, err = os.OpenFile(path, os.O_CREATE|os.O_TRUNC|os.O_RDWR, perms); err != nil {
 		return
